@@ -23,8 +23,8 @@ VARIABLES l, tid
 tvars == <<l, tid>>
 
 CfgOf(b) == [hosts |-> b.hosts, pol |-> [kind |-> b.polkind, n |-> b.poln, allow |-> ToSet(b.allow)],
-             outs |-> AllOuts, k |-> b.k, idem |-> b.idem, cancel |-> TRUE]
-BlankCfg == [hosts |-> <<>>, pol |-> [kind |-> "none", n |-> 0, allow |-> {}], outs |-> {}, k |-> 0, idem |-> FALSE, cancel |-> FALSE]
+             outs |-> AllOuts, k |-> b.k, idem |-> b.idem, cancel |-> "any"]
+BlankCfg == [hosts |-> <<>>, pol |-> [kind |-> "none", n |-> 0, allow |-> {}], outs |-> {}, k |-> 0, idem |-> FALSE, cancel |-> "none"]
 Proj(r) == Ev(r.ev, r.e, r.h, r.n, r.x, r.y)
 
 \* an end-to-end observer cannot see which *Iter executeQuery returned (n = -1 in the log)
@@ -32,7 +32,7 @@ SameEvent(a, b) == IF b.ev = "return" /\ b.n = -1 THEN [a EXCEPT !.n = -1] = b E
 
 \* all Executor variables in the blank state between traces
 BlankNext == /\ cfg' = BlankCfg /\ ex' = [e \in E |-> Ex0] /\ ipos' = 0 /\ cnt' = 0 /\ started' = 0 /\ spawned' = 1 /\ launched' = 0
-          /\ chan' = NoRes /\ ret' = NoRes /\ cancelled' = FALSE /\ returned' = FALSE
+          /\ chan' = NoRes /\ ret' = NoRes /\ cancelled' = "no" /\ returned' = FALSE
           /\ g' = MonInit /\ hist' = <<>> /\ last' = NoEv
 
 TInit == /\ l = 1 /\ tid = 0
@@ -40,7 +40,7 @@ TInit == /\ l = 1 /\ tid = 0
 
 Begin == /\ l <= NLog /\ Log[l].ev = "begin"
          /\ cfg' = CfgOf(Log[l]) /\ ex' = [e \in E |-> Ex0] /\ ipos' = 0 /\ cnt' = 0 /\ started' = 0 /\ spawned' = 1 /\ launched' = 0
-         /\ chan' = NoRes /\ ret' = NoRes /\ cancelled' = FALSE /\ returned' = FALSE
+         /\ chan' = NoRes /\ ret' = NoRes /\ cancelled' = "no" /\ returned' = FALSE
          /\ g' = MonInit /\ hist' = <<>> /\ last' = NoEv
          /\ l' = l + 1 /\ tid' = Log[l].id
 
